@@ -1,6 +1,8 @@
 SPECIFICATION MCSpec
 CONSTANTS WakeAll = FALSE
  NotifyOnFail = TRUE
+ NarrowLock = FALSE
+ MaxWriters = 1
  MaxReaders = 2
  MaxStores = 2
  MaxCancel = 0
